@@ -573,3 +573,123 @@ def h_traj_system_vs_script(case):
     finally:
         shutil.rmtree(tmp, ignore_errors=True)
     return {"bad": bad[:2], "counts": counts, "key": chash([wX, wY, data.tolist()]), "nontrivial": True, "sample": {"cells": wX, "script_cells": wY}}
+
+
+# ---------------------------------------------------------------------------------------------------------------
+# C17: what the accessors return are values, not windows onto the trajectory; merged sums with a coarse-graining map
+
+def h_traj_outputs(case):
+    use_repo()
+    import strengths as st
+    sd, idx = case["seed"], case["idx"]
+    r = gen.rng_for(sd, "Htout", idx)
+    S, C, N = r.randint(1, 3), r.randint(1, 4), r.randint(1, 4)
+    labels = ["A", "B", "C"][:S]
+    net = st.RDNetwork([st.Species(l) for l in labels], [])
+    system = st.RDSystem(net, st.RDGridSpace(w=C, h=1, d=1), state=[0.0] * (S * C))
+    unit = r.choice(["molecule", "mol", "nmol"])
+    data = np.array([r.uniform(0.0, 9.0) * (1.0 if unit == "molecule" else 1e-3) for _ in range(N * S * C)])
+    cgmap = [r.randrange(max(1, C - 1)) for _ in range(C)] if r.random() < 0.6 else None
+    traj = st.RDTrajectory(st.UnitArray(data, unit), st.UnitArray([float(i) for i in range(N)], "s"), system, cgmap=cgmap)
+    bad, counts = [], {}
+    ctx = {"case": {"seed": sd, "idx": idx}, "shape": [N, S, C], "cgmap": cgmap, "unit": unit}
+    D3 = data.reshape(N, S, C)
+    for s_ in range(S):
+        m = traj.get_trajectory(labels[s_], merge=True)
+        counts["merged_checks"] = counts.get("merged_checks", 0) + 1
+        want = D3[:, s_, :].sum(axis=1)
+        if not np.all(np.abs(np.array(m.value) - want) <= 1e-12 * np.abs(D3[:, s_, :]).sum(axis=1) + 0.0):
+            bad.append({"what": "merged trajectory is not the sum over cells", "species": labels[s_], "got": np.array(m.value).tolist(),
+                        "expected": want.tolist(), **ctx})
+            break
+    before = np.array(traj.data.value).tobytes()
+    outs = [traj.get_state(labels[0], 0), traj.get_state(None, N - 1), traj.get_trajectory(labels[-1], C - 1),
+            traj.get_trajectory(labels[0], merge=True)]
+    for o in outs:
+        o.value[...] = -55.5
+    pt = traj.get_trajectory_point(labels[0], 0, 0)
+    pt.value = -55.5
+    counts["output_independence_checks"] = len(outs) + 1
+    if np.array(traj.data.value).tobytes() != before:
+        bad.append({"what": "editing what an accessor returned changed the trajectory's data", **ctx})
+    return {"bad": bad[:2], "counts": counts, "key": chash([N, S, C, cgmap, unit, idx]), "nontrivial": S * C * N >= 2, "sample": None}
+
+
+# ---------------------------------------------------------------------------------------------------------------
+# C16: un-coarse-graining twice, and the coarse trajectory afterwards
+
+def h_ucg_twice(case):
+    use_repo()
+    import strengths as st
+    from strengths import coarsegrain as cg
+    sd, idx = case["seed"], case["idx"]
+    r = gen.rng_for(sd, "Hucg", idx)
+    w, h = r.choice([(4, 1), (3, 2), (5, 1), (2, 2)])
+    n = w * h
+    net = st.RDNetwork([st.Species("A"), st.Species("B")], [])
+    fine = st.RDSystem(net, st.RDGridSpace(w=w, h=h, d=1), state=[float(r.randint(0, 20)) for _ in range(2 * n)])
+    m = [i // 2 for i in range(n)]
+    if r.random() < 0.4:
+        m[-1] = -1
+        if max(m) != (n - 2) // 2 and (n - 1) // 2 not in m[:-1]:
+            m[-1] = (n - 1) // 2
+    coarse = cg.coarsegrain_system(fine, list(m))
+    G = coarse.space.size()
+    N = r.randint(1, 3)
+    cdata = np.array([float(r.randint(0, 40)) for _ in range(N * 2 * G)])
+    ct = st.RDTrajectory(st.UnitArray(cdata.copy(), "molecule"), st.UnitArray([float(i) for i in range(N)], "s"), coarse)
+    before = np.array(ct.data.value).tobytes()
+    u1 = cg.uncoarsegrain_trajectory(ct, fine, list(m))
+    u2 = cg.uncoarsegrain_trajectory(ct, fine, list(m))
+    bad, counts = [], {"uncoarsegrain_twice_checks": 1}
+    ctx = {"case": {"seed": sd, "idx": idx}, "map": m}
+    if np.array(ct.data.value).tobytes() != before:
+        bad.append({"what": "un-coarse-graining changed the coarse-grained trajectory it was given", **ctx})
+    if np.array(u1.data.value).tobytes() != np.array(u2.data.value).tobytes():
+        bad.append({"what": "un-coarse-graining the same trajectory twice gives two different results", **ctx})
+    # group totals preserved (per sample, per species)
+    F = np.array(u1.data.value).reshape(N, 2, n)
+    Cc = cdata.reshape(N, 2, G)
+    for g in range(G):
+        mem = [i for i in range(n) if m[i] == g]
+        if not np.allclose(F[:, :, mem].sum(axis=2), Cc[:, :, g], rtol=1e-12, atol=0):
+            bad.append({"what": "un-coarse-graining does not preserve group totals", "group": g, **ctx})
+            break
+    return {"bad": bad[:2], "counts": counts, "key": chash([w, h, m, cdata.tolist()]), "nontrivial": True, "sample": None}
+
+
+# ---------------------------------------------------------------------------------------------------------------
+# C12: several trajectories saved side by side under awkward (dotted, prefix-sharing) names
+
+def h_traj_names(case):
+    use_repo()
+    import strengths as st
+    sd, idx = case["seed"], case["idx"]
+    r = gen.rng_for(sd, "Hnames", idx)
+    net = st.RDNetwork([st.Species("A")], [])
+    system = st.RDSystem(net, st.RDGridSpace(w=2, h=1, d=1))
+    script = st.RDScript(system, t_sample=[0, 1], rng_seed=1)
+    names = r.sample(["scan_k0.25", "scan_k0.5", "run.v1", "run.v2", "run", "a.b.c", "a.b.d", "traj_data", "traj", "x.json.bak"], 4)
+    os.makedirs(SCRATCH, exist_ok=True)
+    tmp = tempfile.mkdtemp(prefix="hnames-", dir=SCRATCH)
+    bad, counts = [], {}
+    try:
+        datas = {}
+        for nm in names:
+            datas[nm] = np.array([r.uniform(0, 100) for _ in range(4)])
+            tr = st.RDTrajectory(st.UnitArray(datas[nm], "molecule"), st.UnitArray([0.0, 1.0], "s"), system, script=script)
+            st.save_rdtrajectory(tr, os.path.join(tmp, nm), separate_data=r.random() < 0.8)
+        for nm in names:
+            p = os.path.join(tmp, nm) + ("" if nm.endswith(".json") else ".json")
+            back = st.load_rdtrajectory(p)
+            counts["sibling_file_checks"] = counts.get("sibling_file_checks", 0) + 1
+            if np.array(back.data.value).tobytes() != datas[nm].tobytes():
+                bad.append({"what": "a trajectory saved next to others comes back with another trajectory's data", "name": nm, "names": names,
+                            "files": sorted(os.listdir(tmp)), "case": {"seed": sd, "idx": idx}})
+                break
+    except Exception as e:
+        bad.append({"what": "save/load of trajectories under dotted names raised", "error": "%s: %s" % (type(e).__name__, e), "names": names,
+                    "case": {"seed": sd, "idx": idx}})
+    finally:
+        shutil.rmtree(tmp, ignore_errors=True)
+    return {"bad": bad[:2], "counts": counts, "key": chash(names), "nontrivial": True, "sample": {"names": names}}
